@@ -705,7 +705,7 @@ func scripted(c *ev.Case) {
 
 func main() {
 	r := ev.New("C05")
-	r.Rule("one case = one generated pattern list (1-8 patterns, or 11-40 in the wide engines; shared prefixes, suffix/infix relations, duplicates, optionally one empty pattern) inserted into a real Trie + BuildFailureLinks, then 6 texts (random, overlap constructions, arbitrary byte strings) or 6 keys; distinct = hash of (pattern list, texts/keys); non-trivial = at least one non-empty pattern and every query compared with the brute force. Added engines: mixed: two related pattern lists -> two tries worked on alternately for 8-20 operations (text / key queries in every observer order, arguments repeated on the other and on the same trie, results kept and re-read later, results overwritten by the caller and the query repeated, BuildFailureLinks again with or without Inserts, Replace/ReplaceWithMask calls in between whose results are left to C06); match/near + prefix/near: patterns re-encoded as overlong sequences or with a continuation bit flipped; fanout: 400-1200 patterns of 1-3 runes over 448 runes; huge: 100000-130000 patterns; deep: one pattern of ~2^8 / 2^15 / 2^16 / 70000-150000 bytes plus its long suffix, prefix, infix, extension and sibling; sparse: 1-6 patterns and texts of 8 bytes - 140 KiB scrubbed of every occurrence, then 0-2 patterns planted (start / end / across the byte midpoint / anywhere), lone bytes >= 0x80 dropped in 1 text in 4; chain: a word of 10-40 runes whose suffixes are all trie paths (patterns or paths that end in a rune no text contains), texts that enter the chain at its top and need up to 39 failure links to reach an output or a transition")
+	r.Rule("one case = one generated pattern list (1-8 patterns, or 11-40 in the wide engines; shared prefixes, suffix/infix relations, duplicates, optionally one empty pattern) inserted into a real Trie + BuildFailureLinks, then 6 texts (random, overlap constructions, arbitrary byte strings) or 6 keys; distinct = hash of (pattern list, texts/keys); non-trivial = at least one non-empty pattern and every query compared with the brute force. Added engines: mixed: two related pattern lists -> two tries worked on alternately for 8-20 operations (text / key queries in every observer order, arguments repeated on the other and on the same trie, results kept and re-read later, results overwritten by the caller and the query repeated, BuildFailureLinks again with or without Inserts, Replace/ReplaceWithMask calls in between whose results are left to C06); match/near + prefix/near: patterns re-encoded as overlong sequences or with a continuation bit flipped; fanout: 400-1200 patterns of 1-3 runes over 448 runes; fanspan: one node with 750-12000 children whose runes are spread evenly from 'a' to U+10FFFF, texts and keys from both ends of the span; huge: 100000-130000 patterns; deep: one pattern of ~2^8 / 2^15 / 2^16 / 70000-150000 bytes plus its long suffix, prefix, infix, extension and sibling; sparse: 1-6 patterns and texts of 8 bytes - 140 KiB scrubbed of every occurrence, then 0-2 patterns planted (start / end / across the byte midpoint / anywhere), lone bytes >= 0x80 dropped in 1 text in 4; chain: a word of 10-40 runes whose suffixes are all trie paths (patterns or paths that end in a rune no text contains), texts that enter the chain at its top and need up to 39 failure links to reach an output or a transition")
 	r.Assume("oracle = byte-wise brute force (strings.Index at every offset) over the distinct non-empty inserted patterns; patterns are always valid UTF-8, texts and keys are arbitrary bytes")
 	r.Assume("Insert(\"\") is a no-op by documentation: PrefixSearch(\"\")/FuzzySearch(\"\") may list the empty pattern at most once or not at all")
 	r.Assume("for a key that is not valid UTF-8 only soundness of PrefixSearch is demanded (every entry an inserted pattern starting with the key, each once); completeness is demanded for every valid UTF-8 key")
@@ -747,6 +747,7 @@ func main() {
 	r.Cases("prefix/near", r.N(15000, 500000), hv, cfg{als: edge, minN: 1, maxN: 8, maxLen: 5, prefix: true, near: true}.run)
 	r.Cases("fanout", r.N(1000, 30000), hv, cfg{als: []alphabet{alphaFan}, minN: 400, maxN: 1200, maxLen: 3, match: true, prefix: true}.run)
 	r.Cases("huge", r.N(4, 16), hv, huge)
+	r.Cases("fanspan", r.N(48, 1200), hv, fanspan)
 	r.Cases("deep", r.N(24, 400), hv, deep)
 
 	// --- added by the clause-coverage audit (audit.go) ---
@@ -781,6 +782,9 @@ func main() {
 	r.Require("prefix_keys_near_valid", 5000)
 	r.Require("tries_with_node_fanout_ge_128", 100)
 	r.Require("tries_with_node_fanout_ge_256", 20)
+	r.Require("fanspan_tries_fanout_ge_1930", 16)
+	r.Require("fanspan_texts", 300)
+	r.Require("fanspan_keys", 200)
 	r.Require("tries_with_bfs_queue_over_65536", 3)
 	r.Require("patterns_over_255_bytes", 20)
 	r.Require("patterns_over_32767_bytes", 12)
